@@ -77,4 +77,42 @@ PROPS = {
                     thorough="2 keys, up to 3 partitions"),
         outside="borders that are not well-formed internal keys; worker retry after a partial stream",
     ),
+    "C02": dict(
+        harnesses=[
+            dict(run="pkg/backend/tso.VerifC02TSO", quick=dict(preempt=2, dealers=2), thorough=dict(preempt=3, dealers=2), covers=["done"], no_native=False),
+            dict(run=B + "VerifC02Header", quick=dict(ops=1, keys=1, val9=0), thorough=dict(ops=2, keys=2, val9=0), covers=["get-kv", "list-sees-unreported-write", "done"]),
+            dict(run=B + "VerifC01Race", name="C02_Race", quick=dict(ops=1, keys=1, val9=0, preempt=1), thorough=dict(ops=1, keys=2, val9=0, preempt=2), covers=["both-succeed", "done"]),
+        ],
+        bounds=dict(quick="revision generator: 2 concurrent Deal + 1 Commit, all interleavings of its atomic operations with <= 2 preemptions, symbolic start value; header >= data on Get/List/limited List issued while a stored write is not yet reported readable (1-write history, read revision symbolic); uniqueness / real-time order / per-key monotonicity on the 2-client harness of C01",
+                    thorough="3 preemptions; 2-write histories over 2 keys"),
+        outside="more than 2 concurrent dealers; Commit(r) with r above the dealt counter racing Deal (only at leader start)",
+    ),
+    "C04": dict(
+        harnesses=[
+            dict(run=B + "VerifC04Resolve", name="C04_sequencer", quick=dict(ops=0, val9=0, preempt=1, faults=0, sequencer=1), thorough=dict(ops=0, val9=0, preempt=1, faults=1, sequencer=1), covers=["request-error", "done"]),
+            dict(run=B + "VerifC04Resolve", name="C04_faults", quick=dict(ops=0, val9=0, preempt=1, faults=1, sequencer=0), thorough=dict(ops=1, val9=0, preempt=2, faults=2, sequencer=0), covers=["storage-fault", "request-error", "done"]),
+        ],
+        bounds=dict(quick="2 concurrent requests of any kind on 1 key with unconstrained expected revisions (incl. far-future / 'negative'), the sequencer thread taking part in the schedule exploration (<= 1 preemption), and, separately, one storage fault (error / unknown-applied / unknown-lost) on any commit",
+                    thorough="fault and sequencer together; 1-write history; 2 faults, 2 preemptions"),
+        outside="more than 2 concurrent requests; the retry loop firing during the requests (C09)",
+    ),
+    "C06": dict(
+        harnesses=[
+            dict(run=B + "VerifC06ListWatch", quick=dict(ops=1, keys=1, val9=0, later=2), thorough=dict(ops=1, keys=2, val9=0, later=3), covers=["put-applied", "delete-applied", "compaction-between", "done"]),
+        ],
+        bounds=dict(quick="1-write history, list at latest (R), watch from R+1, 2 further symbolic writes (successful and failed) with an optional compaction at any revision in between, reconstruction compared with the list at the latest revision R' and with the reference model",
+                    thorough="2 keys, 3 further writes"),
+        outside="reader/watcher racing the writers (sequential client here; hand-over races are C05's threaded harnesses); intermediate R' (only the latest is compared)",
+    ),
+    "C09": dict(
+        harnesses=[
+            dict(run=B + "VerifC09Uncertain", name="C09_foreign", quick=dict(ops=1, keys=1, val9=0, foreign=1, repairfaults=0, native_tick_ms=1300), thorough=dict(ops=1, keys=2, val9=0, foreign=2, repairfaults=0, native_tick_ms=1300),
+                 covers=["unknown-applied", "unknown-lost", "repair-rewrites", "compaction-capped", "done"]),
+            dict(run=B + "VerifC09Uncertain", name="C09_repairfault", quick=dict(ops=1, keys=1, val9=0, foreign=0, repairfaults=1, native_tick_ms=1300), thorough=dict(ops=1, keys=1, val9=0, foreign=1, repairfaults=1, native_tick_ms=1300),
+                 covers=["unknown-applied", "repair-rewrites", "done"]),
+        ],
+        bounds=dict(quick="1-write history; one create/update/delete (symbolic expectation) whose commit is answered 'unknown' in both variants; 1 further symbolic write to the same key; optional Compact(0) while unresolved; the repair loop with symbolic elapsed time; separately a fault of any kind on the repair write itself",
+                    thorough="2 keys, 2 further writes; repair fault together with a further write"),
+        outside="a write that lands after its commit call returned 'unknown'; TiKV's error classification (adapter, C11)",
+    ),
 }
